@@ -19,4 +19,8 @@ CHECKS = {
         text='Inductive single-step bounded model checking of the lock automaton on the real code: from every (locked, bound) pre-state one arbitrary operation (bind, parse, register, finalize, clear, unlock_config with 6 body shapes incl. raising and nested) is executed symbolically and compared with the reference transition; finalize is explored over hook behaviours x spellings x config faults with symbolic hook values.',
         note=X_NOTE + ' Values that Gin itself stringifies on an error path (config_str() inside two finalize error messages) are concrete.',
         technique='CrossHair/z3 symbolic execution of finalize/unlock_config/bind_parameter/_make_configurable; inductive step over lock states'),
+    'C08': dict(
+        text='Inductive single-step bounded model checking of SelectorMap on the real code: from the canonical trie of every subset of a 7/10-name vocabulary (names that are suffixes of other names included) one arbitrary operation is executed and the result must again be the canonical trie and answer every query like the set-of-names reference (exact-match precedence, unique/ambiguous/unknown, minimal selector resolves back and no shorter suffix does, copies independent). The API half proves, for all integer values, that every unambiguous spelling of a parameter is one key through bind/query/get_bindings/calls.',
+        note=X_NOTE + ' The SelectorMap half handles only concrete strings: the solver certifies that the bounded state x operation space was covered completely and decides the stored values; the observation battery runs natively.',
+        technique='CrossHair/z3 exhaustive path exploration of SelectorMap operations from symbolic valid pre-states (inductive step) + symbolic-value execution of ParsedBindingKey.parse/bind/query'),
 }
